@@ -645,7 +645,10 @@ pub fn conclude(ctx: &Ctx, o: &mut Outcome, rejudge: &dyn Fn(&Case) -> Vec<Fail>
     } else if ctx.lean_broken.is_some() || !o.model_diffs.is_empty() {
         // a proof obligation or the correspondence broke, and nothing failed against the oracle so far: search
         let found = search();
-        let mut unknown2: Vec<(Case, Fail)> = found.oracle_fails.iter().filter(|(c, f)| classify(ctx, c, f, rejudge).is_none()).cloned().collect();
+        // as above: where the search ran with the model driver, a failure on an input on which implementation and
+        // model differ is never the baseline's own
+        let differing2: HashSet<u64> = found.model_diffs.iter().map(|(c, _, _)| hash_case(c)).collect();
+        let mut unknown2: Vec<(Case, Fail)> = found.oracle_fails.iter().filter(|(c, f)| differing2.contains(&hash_case(c)) || classify(ctx, c, f, rejudge).is_none()).cloned().collect();
         o.evaluations += found.evaluations;
         o.bump("search_evaluations", found.evaluations);
         if let Some((c, f)) = {
